@@ -243,7 +243,7 @@ type healthScript struct {
 }
 
 // genScripts returns the health scripts for one (membership, MaxReplica).
-func genScripts(r *rand.Rand, hosts []string, mr int, ranks [][]uint8) []healthScript {
+func genScripts(r *rand.Rand, hosts []string, mr int, ranks [][]uint8, quick bool) []healthScript {
 	n := len(hosts)
 	mk := func() map[string]bool { return map[string]bool{} }
 	var out []healthScript
@@ -285,6 +285,11 @@ func genScripts(r *rand.Rand, hosts []string, mr int, ranks [][]uint8) []healthS
 		top[hosts[ranks[sh][i]]] = true
 	}
 	out = append(out, healthScript{"top-owners-of-a-shard-unhealthy", top})
+	if quick {
+		// all, none, one-healthy, mostly-unhealthy, top-owners: every path of the
+		// statement; the two remaining mixes are left to the thorough tier
+		return []healthScript{out[0], out[1], out[2], out[5], out[6]}
+	}
 	return out
 }
 
@@ -342,6 +347,44 @@ func computeRanks(hosts []string) (ranks [][]uint8, tieShard []bool, ties int64)
 	}
 	wg.Wait()
 	return ranks, tieShard, ties
+}
+
+var pathNames = [...]string{"none-healthy-top-owner", "window-all-healthy", "window-filtered", "fallback-next-healthy"}
+
+// matches is expected() without allocations: it reports whether got is exactly
+// the replica set the statement demands, and which clause applied.
+func matches(got []string, rank []uint8, hosts []string, healthy []bool, anyHealthy bool, mr int) (bool, int) {
+	if !anyHealthy {
+		return len(got) == 1 && got[0] == hosts[rank[0]], 0
+	}
+	lim := mr
+	if len(rank) < lim {
+		lim = len(rank)
+	}
+	k, cnt, ok := 0, 0, true
+	for i := 0; i < lim; i++ {
+		if healthy[rank[i]] {
+			if k < len(got) && got[k] == hosts[rank[i]] {
+				k++
+			} else {
+				ok = false
+			}
+			cnt++
+		}
+	}
+	if cnt > 0 {
+		pi := 2
+		if cnt == lim {
+			pi = 1
+		}
+		return ok && k == len(got), pi
+	}
+	for i := lim; i < len(rank); i++ {
+		if healthy[rank[i]] {
+			return len(got) == 1 && got[0] == hosts[rank[i]], 3
+		}
+	}
+	return false, 3 // unreachable: anyHealthy
 }
 
 // expected computes the replica set the statement demands.
@@ -436,9 +479,12 @@ func (c *activeChecker) set(u map[string]bool) {
 func TestC21(t *testing.T) {
 	run := ev.Start(t, "C21", "exploration",
 		"PRNG-generated memberships (1-12 hosts, 5 naming styles) x MaxReplica 1-5 x 7 health scripts (all, none, one healthy, one unhealthy, "+
-			"random half, mostly unhealthy, top owners of a shard unhealthy); each configuration is evaluated on ALL 65536 shard ids on >= 4 real rings "+
+			"random half, mostly unhealthy, top owners of a shard unhealthy; the quick tier runs 4 memberships x 5 scripts); each configuration is evaluated on ALL 65536 shard ids, each shard on >= 4 real rings "+
 			"that reached the membership through different Refresh histories / discovery orders (plus one ring behind the real passive or active health filter). "+
-			"One case = (membership, MaxReplica, health script); it is non-trivial when the membership has >= 2 hosts and all 65536 shards were compared on every ring.")
+			"One case = (membership, MaxReplica, health script); it is non-trivial when the membership has >= 2 hosts and all 65536 shards were compared on every ring. "+
+			"Concurrent phase: transitions between (membership, health) states (swap, rolling replacement with unhealthy survivors, grow, shrink, health-only) are applied by Refresh while readers call "+
+			"Locations on 192 shards - deterministically while a Watcher parks the Refresh inside Notify, and free-running; every answer must be the model's replica set of the state before or after, never a mixture. "+
+			"One case per transition; non-trivial when the membership changed.")
 	defer run.Finish()
 	run.Assume("hrw.RendezvousHashNode.Score is the score function (its ordering contract is C22's subject); the oracle ranks with its own sort")
 	run.Assume("the ring gives all members equal weight, so the ranking does not depend on the weight's value")
@@ -451,10 +497,20 @@ func TestC21(t *testing.T) {
 	zc.Level = zap.NewAtomicLevelAt(zap.ErrorLevel)
 	log.ConfigureLogger(zc)
 
-	nMemb := run.N(12, 24)
+	selfCheckOracle(t, run.Rand("oracle-self-check"))
+
+	nMemb := run.N(4, 24)
 	for mi := 0; mi < nMemb; mi++ {
 		r := run.Rand(fmt.Sprintf("membership-%d", mi))
 		size := 1 + mi%12
+		if run.Quick() {
+			// four memberships spread over the size range; the seed shifts them so
+			// that a few seeds cover most sizes
+			size = []int{2, 4, 6, 9}[mi] + int(run.Seed()+int64(mi))%2
+			if mi == 0 && run.Seed()%3 == 0 {
+				size = 1
+			}
+		}
 		hosts, style := genHosts(r, size)
 		var mrs []int
 		if run.Quick() {
@@ -478,6 +534,9 @@ func TestC21(t *testing.T) {
 		ranks, tieShard, ties := computeRanks(hosts)
 		run.Count("oracle_score_ties", ties)
 		evalMembership(t, run, r, mi, hosts, style, mrs, ranks, tieShard, digests)
+	}
+	if run.ReplayCase() == "" || strings.HasPrefix(run.ReplayCase(), "inflight/") {
+		concurrentPhase(run)
 	}
 }
 
@@ -587,6 +646,8 @@ func buildGroup(run *ev.Run, r *rand.Rand, mi, mr int, hosts, extra []string) *r
 	return g
 }
 
+const encSkipped = ^uint64(0) - 1
+
 type bad struct {
 	sig     string
 	witness map[string]interface{}
@@ -629,7 +690,7 @@ func evalMembership(t *testing.T, run *ev.Run, r *rand.Rand, mi int, hosts []str
 	}
 	scripts := make([][]healthScript, len(groups))
 	for gi, g := range groups {
-		scripts[gi] = genScripts(r, hosts, g.mr, ranks)
+		scripts[gi] = genScripts(r, hosts, g.mr, ranks, run.Quick())
 	}
 	replay := run.ReplayCase()
 
@@ -639,6 +700,8 @@ func evalMembership(t *testing.T, run *ev.Run, r *rand.Rand, mi int, hosts []str
 			g       *ringGroup
 			tr      *testRing
 			ri      int
+			skip    int // quick tier: scripted rings 1-3 leave out the shards with s%3 == skip (-1: none)
+			calls   int64
 			healthy map[string]bool
 			enc     []uint64
 			paths   map[string]int64
@@ -663,7 +726,13 @@ func evalMembership(t *testing.T, run *ev.Run, r *rand.Rand, mi int, hosts []str
 				for _, x := range out {
 					h[x] = true
 				}
-				passes = append(passes, &pass{g: g, tr: tr, ri: ri, healthy: h, enc: make([]uint64, numShards),
+				skip := -1
+				if run.Quick() && ri >= 1 && ri <= 3 {
+					// every shard is still judged on ring 0, on the real-filter ring and on
+					// two of these three rings (>= 4 rings per shard)
+					skip = ri - 1
+				}
+				passes = append(passes, &pass{g: g, tr: tr, ri: ri, skip: skip, healthy: h, enc: make([]uint64, numShards),
 					paths: map[string]int64{}, caseID: caseID, script: hs.name})
 			}
 		}
@@ -681,18 +750,46 @@ func evalMembership(t *testing.T, run *ev.Run, r *rand.Rand, mi int, hosts []str
 			wg.Add(1)
 			go func(p *pass, lo, hi int) {
 				defer wg.Done()
-				paths := map[string]int64{}
+				var paths [len(pathNames)]int64
 				defer func() {
 					pmu.Lock()
 					for k, v := range paths {
-						p.paths[k] += v
+						if v > 0 {
+							p.paths[pathNames[k]] += v
+						}
 					}
 					pmu.Unlock()
 				}()
+				hIdx := make([]bool, len(hosts))
+				anyHealthy := false
+				for i, h := range hosts {
+					if p.healthy[h] {
+						hIdx[i] = true
+						anyHealthy = true
+					}
+				}
+				var calls int64
+				defer func() { pmu.Lock(); p.calls += calls; pmu.Unlock() }()
 				for s := lo; s < hi; s++ {
+					if p.skip >= 0 && s%3 == p.skip {
+						p.enc[s] = encSkipped
+						continue
+					}
+					calls++
 					got := p.tr.ring.Locations(digests[s])
+					// allocation-free comparison with the oracle; the expected list is only
+					// materialised for a witness
+					okFast, pi := matches(got, ranks[s], hosts, hIdx, anyHealthy, p.g.mr)
+					paths[pi]++
+					if okFast || tieShard[s] {
+						if e, ok := encode(got, index); ok {
+							p.enc[s] = e
+						} else {
+							p.enc[s] = ^uint64(0)
+						}
+						continue
+					}
 					exp, path := expected(ranks[s], hosts, p.healthy, p.g.mr)
-					paths[path]++
 					if e, ok := encode(got, index); ok {
 						p.enc[s] = e
 					} else {
@@ -743,7 +840,7 @@ func evalMembership(t *testing.T, run *ev.Run, r *rand.Rand, mi int, hosts []str
 				}
 				run.Count("ring_pairs_compared", 1)
 				for s := 0; s < numShards; s++ {
-					if p.enc[s] != first.enc[s] {
+					if p.enc[s] != first.enc[s] && p.enc[s] != encSkipped && first.enc[s] != encSkipped {
 						bads = append(bads, bad{"rings-disagree-on-same-membership-and-health", map[string]interface{}{
 							"shard": fmt.Sprintf("%04x", s), "hosts": hosts, "max_replica": p.g.mr, "healthy": keys(p.healthy),
 							"ring_a": first.tr.history, "order_a": hashring.VerifC21NodeOrder(first.tr.ring), "got_a": first.tr.ring.Locations(digests[s]),
@@ -755,7 +852,9 @@ func evalMembership(t *testing.T, run *ev.Run, r *rand.Rand, mi int, hosts []str
 			}
 			hl := keys(first.healthy)
 			run.Case(ev.JSON(map[string]interface{}{"hosts": sortedCopy(hosts), "mr": first.g.mr, "healthy": hl, "script": first.script}), n >= 2)
-			run.Count("locations_calls", int64(len(grp))*numShards)
+			for _, p := range grp {
+				run.Count("locations_calls", p.calls)
+			}
 			for k, v := range first.paths {
 				run.Count("shards_"+k, v)
 			}
@@ -811,4 +910,370 @@ func rankNames(rank []uint8, hosts []string) []string {
 		out[i] = hosts[x]
 	}
 	return out
+}
+
+// ---------------------------------------------------------------------------
+// concurrent phase: Locations while a Refresh is in flight
+
+// parkWatcher parks every Notify (i.e. every membership-changing Refresh, after
+// the new hash was built and before it is published) until released.
+type parkWatcher struct {
+	armed   chan struct{} // non-nil buffered(1) token => park the next Notify
+	entered chan struct{}
+	release chan struct{}
+}
+
+func (w *parkWatcher) Notify(stringset.Set) {
+	select {
+	case <-w.armed:
+		w.entered <- struct{}{}
+		<-w.release
+	default:
+	}
+}
+
+type ringState struct {
+	Members []string `json:"members"`
+	Healthy []string `json:"healthy"`
+}
+
+// model answers for one state on the sampled shards
+func modelAnswers(st ringState, shards []int, mr int) [][]string {
+	rh := hrw.NewRendezvousHash(hrw.Murmur3Hash, hrw.UInt64ToFloat64)
+	nodes := make([]*hrw.RendezvousHashNode, len(st.Members))
+	for i, h := range st.Members {
+		nodes[i] = &hrw.RendezvousHashNode{RHash: rh, Label: h, Weight: 100}
+	}
+	healthy := map[string]bool{}
+	for _, h := range st.Healthy {
+		healthy[h] = true
+	}
+	out := make([][]string, len(shards))
+	for si, s := range shards {
+		key := fmt.Sprintf("%04x", s)
+		sc := make([]float64, len(nodes))
+		idx := make([]uint8, len(nodes))
+		for i, nd := range nodes {
+			sc[i] = nd.Score(key)
+			idx[i] = uint8(i)
+		}
+		sort.SliceStable(idx, func(a, b int) bool { return sc[idx[a]] > sc[idx[b]] })
+		out[si], _ = expected(idx, st.Members, healthy, mr)
+	}
+	return out
+}
+
+func genTransition(r *rand.Rand, from ringState, pool []string) (ringState, string) {
+	in := map[string]bool{}
+	for _, h := range from.Members {
+		in[h] = true
+	}
+	var outside []string
+	for _, h := range pool {
+		if !in[h] {
+			outside = append(outside, h)
+		}
+	}
+	r.Shuffle(len(outside), func(i, j int) { outside[i], outside[j] = outside[j], outside[i] })
+	pick := func(xs []string, p int) []string { // keep each with probability p/10
+		var o []string
+		for _, x := range xs {
+			if r.Intn(10) < p {
+				o = append(o, x)
+			}
+		}
+		return o
+	}
+	var to ringState
+	kind := ""
+	switch c := r.Intn(6); {
+	case c == 0 && len(outside) >= 2:
+		kind = "swap-to-disjoint-membership"
+		to.Members = append([]string(nil), outside[:2+r.Intn(len(outside)-1)]...)
+		to.Healthy = pick(to.Members, 7)
+	case c == 1 && len(outside) >= 1 && len(from.Members) >= 2:
+		kind = "rolling-replacement-survivors-unhealthy"
+		keep := perm(r, from.Members)[:1+r.Intn(len(from.Members)-1)]
+		fresh := outside[:1+r.Intn(len(outside))]
+		to.Members = append(append([]string(nil), keep...), fresh...)
+		to.Healthy = append([]string(nil), fresh...) // only the newcomers are healthy
+	case c == 2 && len(outside) >= 1:
+		kind = "grow"
+		to.Members = append(append([]string(nil), from.Members...), outside[:1+r.Intn(len(outside))]...)
+		to.Healthy = pick(to.Members, 6)
+	case c == 3 && len(from.Members) >= 2:
+		kind = "shrink"
+		to.Members = perm(r, from.Members)[:1+r.Intn(len(from.Members)-1)]
+		to.Healthy = pick(to.Members, 6)
+	case c == 4:
+		kind = "health-only"
+		to.Members = append([]string(nil), from.Members...)
+		to.Healthy = pick(to.Members, 5)
+	default:
+		kind = "health-only-all-unhealthy-or-all-healthy"
+		to.Members = append([]string(nil), from.Members...)
+		if r.Intn(2) == 0 {
+			to.Healthy = append([]string(nil), from.Members...)
+		}
+	}
+	sort.Strings(to.Members)
+	sort.Strings(to.Healthy)
+	return to, kind
+}
+
+func concurrentPhase(run *ev.Run) {
+	const readers = 4
+	nRings := run.N(6, 40)
+	nTrans := run.N(30, 120)
+	replay := run.ReplayCase()
+	for ri := 0; ri < nRings; ri++ {
+		r := run.Rand(fmt.Sprintf("inflight-%d", ri))
+		pool, _ := genHosts(r, 10)
+		mr := 1 + (ri+int(run.Seed()))%5
+		shards := make([]int, 192)
+		for i := range shards {
+			shards[i] = r.Intn(numShards)
+		}
+		digests := make([]core.Digest, len(shards))
+		for i, s := range shards {
+			digests[i], _ = core.NewSHA256DigestFromHex(fmt.Sprintf("%04x", s) + gen.Hex(r, 60))
+		}
+		cur := ringState{Members: sortedCopy(perm(r, pool)[:1+r.Intn(5)])}
+		cur.Healthy = append([]string(nil), cur.Members...)
+		list := &scriptList{}
+		list.set(cur.Members)
+		flt := &scriptFilter{}
+		w := &parkWatcher{armed: make(chan struct{}, 1), entered: make(chan struct{}), release: make(chan struct{})}
+		ring := hashring.New(hashring.Config{MaxReplica: mr}, list, flt, tally.NoopScope, hashring.WithWatcher(w))
+		apply := func(st ringState) {
+			list.set(perm(r, st.Members))
+			u := map[string]bool{}
+			for _, h := range st.Members {
+				u[h] = true
+			}
+			for _, h := range st.Healthy {
+				delete(u, h)
+			}
+			flt.setUnhealthy(u)
+		}
+		curModel := modelAnswers(cur, shards, mr)
+
+		// --- deterministic part: the Refresh is parked inside Watcher.Notify
+		for ti := 0; ti < nTrans; ti++ {
+			caseID := fmt.Sprintf("inflight/ring%d/t%d", ri, ti)
+			next, kind := genTransition(r, cur, pool)
+			if replay != "" && replay != caseID {
+				// the history must still be replayed up to the wanted transition
+				apply(next)
+				ring.Refresh()
+				cur, curModel = next, modelAnswers(next, shards, mr)
+				continue
+			}
+			nextModel := modelAnswers(next, shards, mr)
+			membershipChanges := !eq(cur.Members, next.Members)
+			apply(next)
+			w.armed <- struct{}{}
+			done := make(chan struct{})
+			go func() { ring.Refresh(); close(done) }()
+			parked := false
+			select {
+			case <-w.entered:
+				parked = true
+			case <-done:
+			case <-time.After(2 * time.Minute):
+				run.Inconclusive(caseID + ": watchdog: Refresh neither reached the watcher nor returned within 2 minutes")
+				return
+			}
+			type obs struct {
+				shard int
+				got   []string
+			}
+			var mu sync.Mutex
+			var bad []obs
+			var matchedOld, matchedNew, total int64
+			if parked {
+				var wg sync.WaitGroup
+				for g := 0; g < readers; g++ {
+					wg.Add(1)
+					go func(g int) {
+						defer wg.Done()
+						for si := g; si < len(shards); si += readers {
+							got := ring.Locations(digests[si])
+							o, n := eq(got, curModel[si]), eq(got, nextModel[si])
+							mu.Lock()
+							total++
+							if o {
+								matchedOld++
+							}
+							if n {
+								matchedNew++
+							}
+							if !o && !n && len(bad) < 3 {
+								bad = append(bad, obs{si, got})
+							}
+							mu.Unlock()
+						}
+					}(g)
+				}
+				wg.Wait()
+				w.release <- struct{}{}
+				select {
+				case <-done:
+				case <-time.After(2 * time.Minute):
+					run.Inconclusive(caseID + ": watchdog: released Refresh did not return within 2 minutes")
+					return
+				}
+			} else {
+				select { // un-arm
+				case <-w.armed:
+				default:
+				}
+			}
+			sort.Slice(bad, func(i, j int) bool { return bad[i].shard < bad[j].shard })
+			for _, b := range bad {
+				sig := "inflight-refresh-answer-is-neither-the-old-nor-the-new-replica-set"
+				if len(b.got) == 0 {
+					sig = "inflight-refresh-empty-replica-set"
+				}
+				run.Violation(sig, caseID, map[string]interface{}{"transition": kind, "max_replica": mr, "state_before": cur, "state_after": next,
+					"shard": fmt.Sprintf("%04x", shards[b.shard]), "got": b.got, "model_before": curModel[b.shard], "model_after": nextModel[b.shard],
+					"when": "Refresh parked inside Watcher.Notify"})
+			}
+			// quiescent again: everything must be the new state
+			for si := range shards {
+				if got := ring.Locations(digests[si]); !eq(got, nextModel[si]) {
+					run.Violation("answer-after-refresh-differs-from-the-new-state", caseID, map[string]interface{}{"transition": kind, "max_replica": mr,
+						"state_before": cur, "state_after": next, "shard": fmt.Sprintf("%04x", shards[si]), "got": got, "model_after": nextModel[si]})
+					break
+				}
+			}
+			run.Case(ev.JSON(map[string]interface{}{"from": cur, "to": next, "mr": mr}), membershipChanges)
+			run.Count("inflight_transitions_"+kind, 1)
+			if parked {
+				run.Count("inflight_refreshes_parked_in_notify", 1)
+			}
+			run.Count("inflight_answers_judged", total)
+			run.Count("inflight_answers_equal_to_old_state", matchedOld)
+			run.Count("inflight_answers_equal_to_new_state", matchedNew)
+			cur, curModel = next, nextModel
+		}
+		if replay != "" {
+			continue
+		}
+
+		// --- free-running part: one refresher walks through states while readers
+		// keep asking; an answer must match a state that could be published
+		// between the start and the end of the call
+		nFree := run.N(60, 300)
+		states := []ringState{cur}
+		models := [][][]string{curModel}
+		for i := 1; i <= nFree; i++ {
+			st, _ := genTransition(r, states[i-1], pool)
+			states = append(states, st)
+			models = append(models, modelAnswers(st, shards, mr))
+		}
+		var started, finished int64 // index of the state being / last applied (guarded by smu)
+		var smu sync.Mutex
+		stop := make(chan struct{})
+		var wg sync.WaitGroup
+		var fmu sync.Mutex
+		var freeBad []map[string]interface{}
+		var freeTotal, freeAmbiguous int64
+		for g := 0; g < readers; g++ {
+			wg.Add(1)
+			go func(g int) {
+				defer wg.Done()
+				si := g
+				for {
+					select {
+					case <-stop:
+						return
+					default:
+					}
+					si = (si + readers) % len(shards)
+					smu.Lock()
+					lo := finished
+					smu.Unlock()
+					got := ring.Locations(digests[si])
+					smu.Lock()
+					hi := started
+					smu.Unlock()
+					ok := false
+					for j := lo; j <= hi && !ok; j++ {
+						ok = eq(got, models[j][si])
+					}
+					fmu.Lock()
+					freeTotal++
+					if hi > lo {
+						freeAmbiguous++
+					}
+					if !ok && len(freeBad) < 3 {
+						freeBad = append(freeBad, map[string]interface{}{"max_replica": mr, "shard": fmt.Sprintf("%04x", shards[si]), "got": got,
+							"states_possibly_published": states[lo : hi+1], "when": "free-running Refresh"})
+					}
+					fmu.Unlock()
+				}
+			}(g)
+		}
+		for i := 1; i <= nFree; i++ {
+			apply(states[i])
+			smu.Lock()
+			started = int64(i)
+			smu.Unlock()
+			ring.Refresh()
+			smu.Lock()
+			finished = int64(i)
+			smu.Unlock()
+		}
+		close(stop)
+		wg.Wait()
+		run.Count("freerunning_refreshes", int64(nFree))
+		run.Count("freerunning_answers_judged", freeTotal)
+		run.Count("freerunning_answers_overlapping_a_refresh", freeAmbiguous)
+		for _, b := range freeBad {
+			sig := "inflight-refresh-answer-is-neither-the-old-nor-the-new-replica-set"
+			if g, _ := b["got"].([]string); len(g) == 0 {
+				sig = "inflight-refresh-empty-replica-set"
+			}
+			run.Violation(sig, fmt.Sprintf("inflight/ring%d/free", ri), b)
+		}
+	}
+}
+
+// selfCheckOracle cross-checks the allocation-free matches() against the plain
+// expected() on random ranks / health sets / answers (harness self-test).
+func selfCheckOracle(t *testing.T, r *rand.Rand) {
+	for it := 0; it < 40000; it++ {
+		n := 1 + r.Intn(8)
+		hosts := make([]string, n)
+		rank := make([]uint8, n)
+		for i := range hosts {
+			hosts[i] = fmt.Sprintf("h%d", i)
+			rank[i] = uint8(i)
+		}
+		r.Shuffle(n, func(i, j int) { rank[i], rank[j] = rank[j], rank[i] })
+		healthy := map[string]bool{}
+		hIdx := make([]bool, n)
+		p := r.Intn(11)
+		for i := range hosts {
+			if r.Intn(10) < p {
+				healthy[hosts[i]] = true
+				hIdx[i] = true
+			}
+		}
+		mr := 1 + r.Intn(5)
+		exp, path := expected(rank, hosts, healthy, mr)
+		// candidate answers: the expected one and perturbations of it
+		cands := [][]string{exp, nil, {hosts[r.Intn(n)]}, append(append([]string(nil), exp...), hosts[r.Intn(n)])}
+		if len(exp) > 1 {
+			cands = append(cands, exp[1:], exp[:len(exp)-1], []string{exp[1], exp[0]})
+		}
+		for _, c := range cands {
+			ok, pi := matches(c, rank, hosts, hIdx, len(healthy) > 0, mr)
+			if ok != eq(c, exp) || pathNames[pi] != path {
+				t.Fatalf("harness self-check: matches()=%v/%s but expected()=%v/%s for got=%v rank=%v healthy=%v mr=%d",
+					ok, pathNames[pi], exp, path, c, rank, healthy, mr)
+			}
+		}
+	}
 }
